@@ -745,7 +745,9 @@ Proof.
     destruct (zlen b4 <? 60) eqn:E4; [discriminate|].
     match type of H with context [slice 0 (v_hdrlen h) ?b6] => destruct (slice 0 (v_hdrlen h) b6) as [hb|]; [|discriminate] end.
     destruct (negb (Z.even (v_hdrlen h))); [discriminate|].
-    inversion H; subst h' b. cbn [v_length v_blocks]. split.
+    match type of H with Ok (?hh, ?bb) = Ok _ =>
+      assert (Eh : hh = h') by congruence; assert (Ebb : bb = b) by congruence end.
+    rewrite <- Eh, <- Ebb. cbn [v_length v_blocks]. split.
     + rewrite zlen_splice; rewrite ?le2, ?zlen_splice; rewrite ?le4, ?L4; try lia;
         change (zlen [0; 0]) with 2; rewrite ?zlen_splice; rewrite ?le4, ?L4; lia.
     + right. unfold l. rewrite Le. repeat split; auto. rewrite <- Le. lia.
@@ -759,11 +761,12 @@ Proof.
     assert (L4 : zlen b4 = zlen b2).
     { unfold b4. destruct (ffs3 && bytes_eqb (v_guid h) FFS2); [|exact L3].
       rewrite zlen_splice; [exact L3 | lia | change (zlen FFS3) with 16; lia]. }
-    rewrite Hb in H.
     destruct (zlen b4 <? 60) eqn:E4; [discriminate|].
     match type of H with context [slice 0 (v_hdrlen h) ?b6] => destruct (slice 0 (v_hdrlen h) b6) as [hb|]; [|discriminate] end.
     destruct (negb (Z.even (v_hdrlen h))); [discriminate|].
-    inversion H; subst h' b. cbn [v_length v_blocks]. split.
+    match type of H with Ok (?hh, ?bb) = Ok _ =>
+      assert (Eh : hh = h') by congruence; assert (Ebb : bb = b) by congruence end.
+    rewrite <- Eh, <- Ebb. cbn [v_length v_blocks]. split.
     + rewrite zlen_splice; rewrite ?le2, ?zlen_splice; rewrite ?le4, ?L4; try lia;
         change (zlen [0; 0]) with 2; rewrite ?zlen_splice; rewrite ?le4, ?L4; lia.
     + left. split; [reflexivity | symmetry; exact Hb].
